@@ -193,10 +193,14 @@ def run(ctx, driver):
         mk = S.OctaveScaling if name == "octave" else S.LinearScaling
         o = mk(*p0)
         float(o.hertz_to_scale(1000.0)), float(o.scale_to_hertz(1.0))     # used before it is retuned
-        if name == "octave":
-            o.low_hz = p1[0]
-        else:
-            o.low_hz, o.slope_hz = p1
+        try:
+            if name == "octave":
+                o.low_hz = p1[0]
+            else:
+                o.low_hz, o.slope_hz = p1
+        except AttributeError:      # parameters made read-only: nothing to retune, nothing to check
+            ctx.count("not_retunable:" + name)
+            continue
         ref = mk(*p1)
         for f in (55.0, 100.0, 441.0, 1000.0, 3999.5):
             case = dict(scale=name, params=p1, built_with=p0, hertz=f, retuned=True)
